@@ -1653,6 +1653,9 @@ func (sc *serverConn) processData(f *DataFrame) error {
 		if len(data) > 0 {
 			wrote, err := st.body.Write(data)
 			if err != nil {
+				// The frame has been charged to the windows above but will
+				// never be read: return its conn-level flow control.
+				sc.sendWindowUpdate(nil, int(f.Length)-wrote)
 				errMsg := fmt.Sprintf("stream body write error: %s", err)
 				return StreamError{id, ErrCodeStreamClosed, errMsg}
 			}
